@@ -621,26 +621,27 @@ ScanUnspend(s, w, snap, q, i) ==
            s2 == [s1 EXCEPT !.w[w].outs = Put(@, k, [snap[k] EXCEPT !.st = "Unspent", !.h = HeightOfOut(s, q[i])])]
        IN <<s1, s2>> \o ScanUnspend(s2, w, snap, q, i + 1)
 
-\* chain outputs of ours with no matching record: restore + confirmed log entry
+\* a chain output of ours (o, at height h) with no matching record: restore + confirmed log entry
+ScanRestoreOne(s, w, oid, h) ==
+  LET c  == s.reg[oid]
+      a  == c.pa
+      idx0 == IF a \in AllAccts(s, w) THEN s.w[w].idx
+              ELSE Put(s.w[w].idx, a, [child |-> 0, log |-> 0, confh |-> 0])
+      id == idx0[a].log
+      e  == [NewTx(a, id, IF c.cb THEN "ConfirmedCoinbase" ELSE "TxReceived") EXCEPT
+               !.conf = TRUE, !.cr = c.v, !.nout = 1]
+      o  == [v |-> c.v, st |-> "Unspent", h |-> h, lk |-> IF c.cb THEN h + Maturity ELSE h,
+             cb |-> c.cb, tx |-> id, acct |-> a, pa |-> a, m |-> TRUE]
+      \* a record with the same key but another value stays; the restored one is
+      \* stored under (key, mmr index): abstract key "<key>+m"
+      k2 == IF c.key \in DOMAIN s.w[w].outs THEN c.key \o "+m" ELSE c.key
+  IN [s EXCEPT !.w[w].idx = [idx0 EXCEPT ![a].log = id + 1],
+               !.w[w].outs = Put(@, k2, o),
+               !.w[w].txs = Put(@, TxKeyOf(a, id), e)]
 RECURSIVE ScanRestore(_, _, _, _)
 ScanRestore(s, w, q, i) ==
   IF i > Len(q) THEN <<>>
-  ELSE LET c  == s.reg[q[i]]
-           a  == c.pa
-           idx0 == IF a \in AllAccts(s, w) THEN s.w[w].idx
-                   ELSE Put(s.w[w].idx, a, [child |-> 0, log |-> 0, confh |-> 0])
-           id == idx0[a].log
-           h  == HeightOfOut(s, q[i])
-           e  == [NewTx(a, id, IF c.cb THEN "ConfirmedCoinbase" ELSE "TxReceived") EXCEPT
-                    !.conf = TRUE, !.cr = c.v, !.nout = 1]
-           o  == [v |-> c.v, st |-> "Unspent", h |-> h, lk |-> IF c.cb THEN h + Maturity ELSE h,
-                  cb |-> c.cb, tx |-> id, acct |-> a, pa |-> a, m |-> TRUE]
-           \* a record with the same key but another value stays; the restored one is
-           \* stored under (key, mmr index): abstract key "<key>+m"
-           k2 == IF c.key \in DOMAIN s.w[w].outs THEN c.key \o "+m" ELSE c.key
-           s1 == [s EXCEPT !.w[w].idx = [idx0 EXCEPT ![a].log = id + 1],
-                           !.w[w].outs = Put(@, k2, o),
-                           !.w[w].txs = Put(@, TxKeyOf(a, id), e)]
+  ELSE LET s1 == ScanRestoreOne(s, w, q[i], HeightOfOut(s, q[i]))
        IN <<s1>> \o ScanRestore(s1, w, q, i + 1)
 
 \* del: every snapshot record that was Unconfirmed: entry cancelled, record deleted
